@@ -197,17 +197,17 @@ Definition x_hist : list (cctx * wop) :=
 Theorem C04_delete_total_refuted :
   exists (cid_of b58 : bytes -> bytes),
     (forall a b, cid_of a = cid_of b -> a = b) /\ (forall a b, b58 a = b58 b -> a = b) /\
-    exists w0 pre c cid sig tok w' r ns,
+    exists w0 pre c cid sig tok,
       CInv cid_of (w_c w0) /\ alias_sound b58 w0 /\
-      wstep cid_of b58 (wrun_from cid_of b58 w0 pre) (c, Delete cid sig tok) = (w', r, ns) /\
-      In (NDel cid) ns /\
-      exists key recs, txts (w_n w') !! key = Some recs /\ b58 cid ∈ recs.
+      let res := wstep cid_of b58 (wrun_from cid_of b58 w0 pre) (c, Delete cid sig tok) in
+      In (NDel cid) (snd res) /\
+      exists key recs, txts (w_n (fst (fst res))) !! key = Some recs /\ b58 cid ∈ recs.
 Proof.
   exists xid, xid. split; [auto|]. split; [auto|].
   exists (winit default_root xNNS), x_hist, (xCtx 5), (xBlob 1), [], [].
-  eexists _, _, _. split; [apply CInv_init|]. split.
+  split; [apply CInv_init|]. split.
   { intros tok nm recs cid H. cbn in H. rewrite lookup_empty in H. discriminate. }
-  split; [vm_compute; reflexivity|]. split; [left; reflexivity|].
+  cbv zeta. split; [vm_compute; left; reflexivity|].
   exists (xaaa ++ dot :: default_root, xaaa ++ dot :: default_root), [xBlob 1].
   split; [vm_compute; reflexivity|]. apply elem_of_list_singleton. reflexivity.
 Qed.
